@@ -40,7 +40,9 @@ var lcInvalidEdges = []uint16{0x0100, 0x0fff, 0x1100, 0x1fff, 0x2100, 0x2fff, 0x
 const ean13 = "1234567890123"
 const ean13p5 = "1234567890123-12345"
 
-var textPool = []string{"", "a", "PSA", "1.2.3", "BL", "héllo", "日本", "a\"b\\c", "line\nbreak", "\x00", "tab\there", "SHA256", "sha-256", "M1", "https://x.example/v?a=1&b=<2>", "\u2028"}
+var textPool = []string{"", "a", "PSA", "1.2.3", "BL", "héllo", "日本", "a\"b\\c", "line\nbreak", "\x00", "tab\there", "SHA256", "sha-256", "M1", "https://x.example/v?a=1&b=<2>", "\u2028",
+	// text that looks like a JSON escape when written out literally
+	"C:\\u0026\\updates", "\\u003c", "x\\\\u003e", "\\n", "\\\"", "\\u00e9", "&amp;", "</script>", "\x7f", "\\"}
 var badUTF8 = []string{"\xff", "a\xc3", "\xed\xa0\x80", "ok\xfe"}
 
 func validComp(r *Rng) CompDesc {
